@@ -88,8 +88,14 @@ impl QuitAgainS {
         ensures r as nat == old(env).quit_again@, final(env).quit_again@ == old(env).quit_again@ + 1, final(env).log == old(env).log, final(env).queued == old(env).queued { unimplemented!() }
 }
 // watchexec::action::Handler (ActionHandler): only what the quit path touches; `sigs` = the signals carried by the events of this action
-pub struct Handler { pub quit: Option<QuitManner>, pub sigs: Vec<Signal> }
+pub struct Handler { pub quit: Option<QuitManner>, pub sigs: Vec<Signal>, pub has_path: Ghost<bool>, pub has_empty: Ghost<bool> }
 impl Handler {
+    // action.paths().next().is_none(): no event of this action names a path (Handler::paths / Event::paths are proved in unit sources)
+    #[verifier::external_body]
+    pub fn vx_no_paths(&self) -> (r: bool) ensures r == !self.has_path@ { unimplemented!() }
+    // action.events.iter().any(Event::is_empty): some event of this action is empty, i.e. synthetic (Event::is_empty is proved in unit sources)
+    #[verifier::external_body]
+    pub fn vx_any_empty(&self) -> (r: bool) ensures r == self.has_empty@ { unimplemented!() }
     // action.signals().collect::<Vec<Signal>>()
     #[verifier::external_body]
     pub fn vx_signals(&self) -> (r: Vec<Signal>) ensures r@ == self.sigs@ { unimplemented!() }
@@ -106,3 +112,7 @@ pub assume_specification<T: PartialEq> [<[T]>::contains] (s: &[T], x: &T) -> (r:
 pub assume_specification<T> [Option::<T>::or] (a: Option<T>, b: Option<T>) -> (r: Option<T>)
     ensures r == (if a is Some { a } else { b });
 pub assume_specification<T> [core::mem::drop::<T>] (x: T);
+// the early `return action;` of the event gate: the action is handed back untouched, nothing is started
+pub struct GateOut { pub skipped: bool, pub action: Handler }
+pub fn vx_skip(action: Handler) -> (r: GateOut) ensures r.skipped, r.action == action { GateOut { skipped: true, action } }
+pub fn vx_go_on(action: Handler) -> (r: GateOut) ensures !r.skipped, r.action == action { GateOut { skipped: false, action } }
